@@ -252,8 +252,8 @@ func (fx *FuncExec) alloc(st *State) *Term {
 	ts := fx.ts
 	a := fx.heapGet(st, allocKey, SInt)
 	if a.op == "var" {
-		fx.addFact(ts.True(), ts.mk("<=", SBool, ts.Int(2), a))
-		ts.SetRange(a, big.NewInt(2), nil2(big2p40))
+		fx.addFact(ts.True(), ts.mk("<=", SBool, ts.Int(100000), a))
+		ts.SetRange(a, big.NewInt(100000), nil2(big2p40))
 	}
 	fx.heapSet(st, allocKey, ts.Add(a, ts.Int(1)))
 	return a
@@ -1256,6 +1256,46 @@ func (fx *FuncExec) globalValue(st *State, name string, t types.Type) Value {
 		var cs []*Term
 		for i := 0; i < len(gi.bytes); i++ {
 			cs = append(cs, ts.Eq(ts.Select(arr, ts.Int(int64(i))), ts.Int(int64(gi.bytes[i]))))
+		}
+		fx.addFact(ts.True(), ts.And(cs...))
+		return mkSlice(id, ts.Int(0), n, n, sl.Elem())
+	case "ptrslice":
+		sl, ok := t.Underlying().(*types.Slice)
+		if !ok {
+			return nil
+		}
+		pt, ok := sl.Elem().Underlying().(*types.Pointer)
+		if !ok {
+			return nil
+		}
+		id := ts.Int(-int64(gi.idx)*1024 - 1024)
+		n := ts.Int(gi.code)
+		hk := elemHeapKey(sl.Elem())
+		arr := ts.Select(fx.heapGet(st, hk, SArr2), id)
+		// element k is the object with the fixed reference 1000 + idx*200 + k (below every allocation counter),
+		// whose key/value fields hold the literal strings
+		var cs []*Term
+		for k := 0; k < int(gi.code); k++ {
+			ref := ts.Int(1000 + int64(gi.idx)*200 + int64(k))
+			cs = append(cs, ts.Eq(ts.Select(arr, ts.Int(int64(k))), ref))
+			if stt, ok := pt.Elem().Underlying().(*types.Struct); ok && k < len(gi.entries) {
+				for fi := 0; fi < stt.NumFields() && fi < 2; fi++ {
+					f := stt.Field(fi)
+					if fsl, ok := f.Type().Underlying().(*types.Slice); ok && isByteLike(fsl.Elem()) {
+						key := ptrKey(pt.Elem()) + "." + f.Name()
+						str := gi.entries[k][fi]
+						aid := ts.Int(-(int64(gi.idx)*4096+int64(k)*2+int64(fi))*1024 - 1024 - 1023)
+						cs = append(cs, ts.Eq(ts.Select(fx.heapGet(st, key+"#arr", SArr), ref), aid),
+							ts.Eq(ts.Select(fx.heapGet(st, key+"#off", SArr), ref), ts.Int(0)),
+							ts.Eq(ts.Select(fx.heapGet(st, key+"#len", SArr), ref), ts.Int(int64(len(str)))),
+							ts.Eq(ts.Select(fx.heapGet(st, key+"#cap", SArr), ref), ts.Int(int64(len(str)))))
+						bh := ts.Select(fx.heapGet(st, elemHeapKey(fsl.Elem()), SArr2), aid)
+						for ci := 0; ci < len(str); ci++ {
+							cs = append(cs, ts.Eq(ts.Select(bh, ts.Int(int64(ci))), ts.Int(int64(str[ci]))))
+						}
+					}
+				}
+			}
 		}
 		fx.addFact(ts.True(), ts.And(cs...))
 		return mkSlice(id, ts.Int(0), n, n, sl.Elem())
